@@ -346,6 +346,7 @@ class Play:
     def set_fault(self, ctx, fault):
         if fault and len(fault) > 2 and fault[2] == "guard":
             ctx.H.guard_fault = ctx.interp.guard_fault = fault[0]
+            ctx.H.guard_fault_kind = fault[3] if len(fault) > 3 else "boom"
             fault = None
         else:
             ctx.H.guard_fault = ctx.interp.guard_fault = None
